@@ -104,6 +104,9 @@ def run(ctx, report):
         partitioned = bool(s % 2) if s < 4 else rng.random() < 0.5
         gap = s in (2, 3) or (s >= 4 and rng.random() < 0.4)
         nparts = rng.choice([2, 3, 4])
+        if s == 4:
+            # directed: part numbers beyond 9 (part.10, part.11 exist): numbers must be compared as numbers, not as text
+            nparts, partitioned, gap = 12, False, False
         nrg = rng.choice([1, 2, 3]) if not ctx.quick else rng.choice([1, 2])
         base = os.path.join(ctx.workdir("c19"), f"base{s}")
         shutil.rmtree(base, ignore_errors=True)
